@@ -133,5 +133,5 @@ ASSUMPTIONS = ["continuation lines contain no digits, so they cannot parse as a 
 
 def main(tier):
     n = 3000 if tier == "quick" else 150000
-    cap = 300 if tier == "quick" else 7200
+    cap = 300 if tier == "quick" else 1500
     return engine.run_check(PROP, "c02", tier, n, cap, "exploration", RULE, ASSUMPTIONS)
